@@ -1,3 +1,5 @@
 import KcpVerif.Generated
 import KcpVerif.Model.Ring
+import KcpVerif.Lemmas.Ring
+import KcpVerif.Lemmas.RingIter
 import KcpVerif.Props.C20
